@@ -90,7 +90,10 @@ def variants(kind, tier):
         return front + ind + mn + (first if toks else '') + body + com
 
     offs_opts = [None] + (['', ' '] if base else [])
-    if tier == 'thorough':
+    full_count = len(INDENTS) * len(COMMENTS) * len(FRONTS) * 3 * (5 ** ngaps) * len(offs_opts)
+    for sp in ops_sp:
+        full_count *= len(sp)
+    if tier == 'thorough' and full_count <= 3000000:      # the 5-operand AMO line would need 3.6e7 variants: it keeps the sweep below
         for ind, com, front, first in itertools.product(INDENTS, COMMENTS, FRONTS, [' ', '\t', '  ']):
             for seps in itertools.product(SEPS[:5], repeat=ngaps):
                 for toks in itertools.product(*ops_sp):
@@ -224,7 +227,7 @@ def run(tier, seed, t0):
                rule='one state per distinct spelling variant (a rewritten line or a rewritten whole program) x mode; variants of one line are assembled 400 per program and compared '
                     'with the canonical bytes; every variant differs textually from the canonical line, so all are non-trivial',
                exhaustive=True, kinds=sorted(m.sets['kinds']),
-               bound=('full product of indent x comment x front lines x mnemonic gap x separator per operand gap x spelling per register x spelling per integer x offset syntax for %d line kinds; '
+               bound=('full product of indent x comment x front lines x mnemonic gap x separator per operand gap x spelling per register x spelling per integer x offset syntax for the %d line kinds whose product has <= 3e6 variants (dimension sweeps for the rest); '
                       'whole 8-line program: full product of 3-5 variants per line' % len(LINES)) if tier == 'thorough' else
                      ('%d line kinds: every dimension swept in full against 2-value settings of the others, plus separators x spellings jointly; whole 8-line program: all choices '
                       'rewriting up to 3 lines at a time, each also with blank / comment lines interleaved' % len(LINES)))
